@@ -79,6 +79,9 @@ class IntermediateStateCallee(Contract):
         if isinstance(idx, tuple):
             idx = ",".join(idx)
         key = (a["space"], a["braket"], idx)
+        tag = a["self"].attrs.get("_tag") if isinstance(a.get("self"), Inst) else None
+        if tag:
+            key = (tag,) + key
         at = M.atom_of("ISTATE", *key)(term(a["order"]))
         return atom_nc(at, frozenset([("istate", key + (str(term(a["order"])),), True)]))
 
